@@ -121,6 +121,9 @@ type Exec struct {
 	exemptions    []string
 	knownNames    map[string]bool
 	secondAttempt bool
+	guards        map[string]*guardInfo
+	lockOrd       map[string]int
+	entryLocks    map[string]int
 	reachBackend  map[string]bool
 	reachMutating map[string]bool
 	maxOps        int
@@ -137,7 +140,7 @@ func NewExec(prog *ssa.Program, lib *SpecLib, prop string) *Exec {
 	ex := &Exec{prog: prog, lib: lib, prop: prop, defs: map[string]*Def{}, fnInfo: map[*ssa.Function]*FnInfo{},
 		sentinels: map[*ssa.Global]*Term{}, sentinelText: map[string]string{}, constGlobals: map[*ssa.Global]Val{},
 		inlined: map[string]bool{}, havocked: map[string]bool{}, usedExtern: map[string]bool{}, warnings: map[string]bool{},
-		immutableKeys: map[string]bool{}, inlineCount: map[string]int{}, platformHints: map[string]*Term{}, intToFloat: map[string]*Term{}, callOrd: map[string]int{}, pathBudget: 20000, stepBudget: 3000000, maxDepth: 6, pkgByName: map[string]*ssa.Package{}, effectsMemo: map[*ssa.Function]*Effects{}}
+		immutableKeys: map[string]bool{}, guards: map[string]*guardInfo{}, lockOrd: map[string]int{}, inlineCount: map[string]int{}, platformHints: map[string]*Term{}, intToFloat: map[string]*Term{}, callOrd: map[string]int{}, pathBudget: 20000, stepBudget: 3000000, maxDepth: 6, pkgByName: map[string]*ssa.Package{}, effectsMemo: map[*ssa.Function]*Effects{}}
 	for _, p := range prog.AllPackages() {
 		if _, dup := ex.pkgByName[p.Pkg.Name()]; !dup || strings.Contains(p.Pkg.Path(), "ARM-software") {
 			ex.pkgByName[p.Pkg.Name()] = p
@@ -837,7 +840,9 @@ func (ex *Exec) callEffects(cc *ssa.CallCommon, fr *Frame) *Effects {
 	// unknown function value: may be any closure created in this function
 	e := &Effects{Heap: true, Ghosts: map[string]bool{}}
 	for _, g := range ex.activeGhosts {
-		e.Ghosts[g] = true
+		if !ex.lib.Ghosts[g].Stable {
+			e.Ghosts[g] = true
+		}
 	}
 	return e
 }
